@@ -334,6 +334,23 @@ prop("C11", engine="e2", program="c11", rule=(
               "caller) plus property-based testing on a typed universe",
     quick=dict(cases=600, size=60, workers=6),
     thorough=dict(cases=20000, size=100, workers=8))
+prop("C20", engine=None, program="c20", rule=(
+    "generated programs: 2 or 3 type lists of 1..513 classes (products on "
+    "both sides of the 512-element split: 506, 512, 513, 529, 576, 3-list "
+    "512 and 576, ...), a definition template with a pseudo-random subset "
+    "of combinations marked not_defined (probability 0 / 0.1 / 0.5 / 0.9 / "
+    "1), in two styles (primary defined + not_defined specialisations, or "
+    "primary not_defined + defined specialisations); static_asserts on the "
+    "size and order of product<>; at run time the method's catalog must "
+    "hold exactly one definition per defined combination, every defined "
+    "combination called with its exact classes must run its own definition "
+    "and every other combination must be reported as not implemented; a "
+    "compile error fails the case; non-trivial = some combinations defined "
+    "and some not, or a product larger than 512"),
+    technique="generated-program testing (seeded sampling of list sizes and "
+              "not_defined subsets, compile and run, oracle inside the "
+              "program)",
+    quick=dict(cases=0, size=1), thorough=dict(cases=0, size=1))
 prop("C12", engine="e1", rule=(
     "random registries, arity 1..4; round trip: the text written by "
     "generator::write_static_offsets is parsed and compared position by "
@@ -524,7 +541,7 @@ def exe_for_file(path, default_engine):
 def check(pid, tier, seed):
     t_start = time.time()
     cfg = PROPS[pid]
-    exe = build(cfg["engine"])
+    exe = build(cfg["engine"]) if cfg.get("engine") else None
     tcfg = cfg[tier]
     scratch = os.path.join(BUILD, "scratch", "%s-%d" % (pid, os.getpid()))
     os.makedirs(scratch, exist_ok=True)
@@ -565,10 +582,14 @@ def check(pid, tier, seed):
             violations.append((path, msg))
 
     # 2. generated search
-    groups = [dict(engine=cfg["engine"], exe=exe,
-                   variants=cfg.get("variants") or [cfg.get("variant", "")],
-                   workers=tcfg.get("workers", NCPU), cases=tcfg["cases"],
-                   size=tcfg["size"], env=tcfg.get("env", {}))]
+    groups = []
+    if exe:
+        groups = [dict(engine=cfg["engine"], exe=exe,
+                       variants=cfg.get("variants") or
+                       [cfg.get("variant", "")],
+                       workers=tcfg.get("workers", NCPU),
+                       cases=tcfg["cases"], size=tcfg["size"],
+                       env=tcfg.get("env", {}))]
     for g in tcfg.get("also", []):
         groups.append(dict(engine=g["engine"], exe=build(g["engine"]),
                            variants=g.get("variants", [""]),
@@ -815,7 +836,7 @@ def write_manifest():
                                 % pid,
                 "evidence_file": "evidence/%s.json" % pid,
                 "replay_cmd_template": "python3 verif.py replay {path}",
-                "engine": c["engine"],
+                "engine": c.get("engine") or c.get("program"),
                 "level_claimed": {
                     "category": "exploration",
                     "text": c.get("level_text", LEVEL_TEXT),
@@ -845,11 +866,23 @@ def write_manifest():
         "engines": [
             {"name": "e1", "path": "harness/e1",
              "serves_properties": sorted(k for k, v in PROPS.items()
-                                         if v["engine"] == "e1"),
+                                         if v.get("engine") == "e1"),
              "kind_free_text": "synthetic registries: run-time generated "
              "class graphs, methods and definitions fed to the real compiler "
              "and dispatch templates under 12 policy configurations; "
              "rapidcheck-driven, brute-force reference model"},
+            {"name": "e2", "path": "harness/e2",
+             "serves_properties": ["C01", "C02", "C09", "C11", "C15"],
+             "kind_free_text": "typed universe: 13 real classes (chains, "
+             "non-virtual multiple inheritance, virtual diamond), 22 methods "
+             "in 7 parameter kinds, 5 policies built from the stock ones; "
+             "registration objects constructed at run time; every "
+             "virtual_ptr construction route"},
+            {"name": "e3", "path": "proggen",
+             "serves_properties": ["C11", "C20"],
+             "kind_free_text": "seeded generators of C++ programs, compiled "
+             "against /repo/include and run; the oracle is inside the "
+             "generated program"},
             {"name": "e4", "path": "harness/e4", "serves_properties": ["C05"],
              "kind_free_text": "hash facets and v-table pointer vector "
              "driven directly over generated id-set histories"},
